@@ -67,6 +67,7 @@ fn run_hist<T: Bits>(rng: &mut Rng, calls: &[AllocCall], cold: bool) -> Vec<(Vec
     let mut out = vec![];
     for c in calls {
         let v = matrix_f64(rng, c.n as usize, c.family, T::WIDE);
+        tick_global(&format!("alloc stream {} {} n={} family={}", ALGO_NAMES[c.algo as usize], METHOD_NAMES[c.method as usize], c.n, c.family));
         let mut m: Vec<T> = v.iter().map(|&x| T::from_f64(x)).collect();
         if cold {
             start();
